@@ -290,7 +290,10 @@ def run_interp(seed: int, flag: str):
     env = dict(os.environ, PYTHONHASHSEED="0", PYTHONDONTWRITEBYTECODE="1")
     env.pop("PYTHONOPTIMIZE", None)
     code = f"import sys; sys.path[:0] = [{TARGET!r}, {VERIF!r}]; from checks import c02; c02.interp_child({seed})"
-    r = subprocess.run([sys.executable, flag, "-c", code], env=env, capture_output=True, text=True, timeout=900)
+    from mc import budget as _b
+
+    with _b.idle_ok():
+        r = subprocess.run([sys.executable, flag, "-c", code], env=env, capture_output=True, text=True, timeout=900)
     line = next((ln for ln in r.stdout.splitlines() if ln.startswith("CHILDRESULT ")), None)
     if line is None:
         raise RuntimeError(f"child interpreter {flag} failed: {r.stderr[-400:]}")
